@@ -26,6 +26,7 @@ ASSUMPTIONS = [
     'tolerance |got-ref| <= 1e-9*ref + 1e-11*max|x-mean|^2-scale (1e-6 relative when the weight ratio exceeds 1e12)',
     'thread interleaving cannot change results (collectives are deterministic); what varies is the split',
 ]
+RULE = RULE + ' ' + 'Also: a producer that overwrites one work array in place for every sample; the rounding floor of streamed spectrum variances scales with the largest sampled value; cases stratified by part.'
 REQUIRED = {'producer-reuses-buffer': 0.08, 'ranks>=2': 0.5, 'has-single-sample-rank': 0.15, 'has-empty-rank': 0.15, 'weights:nonuniform': 0.3,
             'part:pipeline': 0.1, 'part:variance': 0.4}
 
